@@ -105,6 +105,15 @@ CHECKS = {
              "comparing, for EVERY permutation of world axes among sub-frame slots (n<=4), the routing observed on the implementation "
              "with the model evaluated in Coq; objects compared with astropy's generic wrapper; round trips.",
         ref="5 C12", technique="Coq proof over hand-written token model + AST pins + exhaustive-permutation correspondence"),
+    "C05": dict(
+        text="Theorems over a state-machine model of the solver's index bookkeeping with an ADVERSARIAL oracle for the numerics (any "
+             "correction norm incl. NaN, any finiteness, any interleaving of iteration kinds, any batch size): invariants by induction "
+             "over iterations, unreported_implies_converged(_nonadaptive) — every entry with a finite world point is reported, rescued "
+             "by the fallback solver, or has a final correction below tolerance and a finite pixel; NaN world input is never reported. "
+             "Proving it exposed a real defect (repaired in /repo). Tied by AST pins and a settrace probe: the model's final "
+             "classification computed in Coq must reproduce divergent/slow_conv and the raise decision of every run. PARTIAL: "
+             "convergence and forward error are sampled (aligned imaging family, NIRCam file).",
+        ref="5 C05", technique="Coq proof (invariant over iterations, adversarial oracle) + AST pins + trace correspondence"),
 }
 
 NOT_YET = "check not built yet in this session (work in progress; see DESIGN.md section 10 build order)"
